@@ -10,18 +10,21 @@ import (
 	"fmt"
 	"os"
 	"path"
+	"reflect"
 	"regexp"
 	"sort"
 	"strconv"
 	"strings"
 	"sync"
 	"time"
+	"unicode/utf8"
 
 	"github.com/logrange/logrange/api"
 	"github.com/logrange/logrange/pkg/lql"
 	"github.com/logrange/logrange/pkg/model/tag"
 	"github.com/logrange/logrange/pkg/tindex"
 	"github.com/logrange/logrange/pkg/utils/kvstring"
+	"github.com/logrange/range/pkg/records/journal"
 	. "verifharness/common"
 )
 
@@ -32,9 +35,10 @@ type Replay struct {
 	Sources []string `json:"sources,omitempty"`
 	Sets    [][]byte `json:"sets,omitempty"` // tag texts (proper spellings) of the sets an expression is applied to
 	Show    []string `json:"show,omitempty"`
+	Restart bool     `json:"restart,omitempty"` // hist: after the history the index is read back from its file by a new service
 }
 
-const rule = "histories of GetOrCreateJournal over spellings (order, blanks, braces, quoted/raw values, the printed line of an earlier answer, malformed texts) of 2-4 tag sets whose values come from an alphabet rich in quote, back-quote, comma, equals, braces, blank and non-ASCII bytes, followed by Visit with {tags} and expression sources; expression sources from a grammar over all ten operators in both cases, UPPER/LOWER nesting, NOT, AND, OR, parentheses, valid and malformed LIKE patterns, applied to 4 tag sets; in-process server histories with SHOW PARTITIONS and SELECT FROM; races of 2-8 first writes; a case is non-trivial iff a history has >= 2 distinct partitions and >= 1 text that is not the canonical line of its set, an expression has >= 2 conditions or a function, a race has >= 2 spellings"
+const rule = "histories of GetOrCreateJournal over spellings (order, blanks, braces, quoted/raw values, the printed line of an earlier answer, malformed texts) of 2-4 tag sets whose values come from an alphabet rich in quote, back-quote, comma, equals, braces, blank and non-ASCII bytes, followed by Visit with {tags} (also pairs with the empty value for names a partition lacks) and expression sources and, for a third of them, a restart (a new service loads the index file: tags and answers must be as before); neighbour histories: the partition of a set with a value the quoting rule of line() is about (blank at an end, quote characters, closing brace) is created before the raw text of that set, a spelling of a neighbouring set, is written; expression sources from a grammar over all ten operators in both cases, UPPER/LOWER nesting, NOT, AND, OR, parentheses, valid and malformed LIKE patterns, applied to 4 tag sets; in-process server histories with SHOW PARTITIONS and SELECT FROM; races of 2-8 first writes; a case is non-trivial iff a history has >= 2 distinct partitions and >= 1 text that is not the canonical line of its set, an expression has >= 2 conditions or a function, a race has >= 2 spellings"
 
 var special = []byte{'"', '\\', ',', '=', '{', '}', '`', ' ', 0xc3, 0xa9, 0xff}
 var letters = []byte("abcxyz01AZ._-")
@@ -66,9 +70,103 @@ func genSet(r *Rng, pSpecial int) []kv {
 			continue
 		}
 		seen[k] = true
-		ps = append(ps, kv{k, string(genStr(r, 5, pSpecial))})
+		v := string(genStr(r, 5, pSpecial))
+		if pSpecial > 0 && r.Chance(1, 6) {
+			v = edgy(r)
+		}
+		ps = append(ps, kv{k, v})
 	}
 	return ps
+}
+
+// edgy: a value the quoting rule of tagMap.line() is about: printed raw it would be a spelling of another set
+// (blanks at an end are trimmed, a quoted literal is unquoted, a closing brace at the end of the line closes it)
+func edgy(r *Rng) string {
+	w := r.PickStr("app", "x", "a1", "eu", "0")
+	switch r.Intn(9) {
+	case 0:
+		return " " + w
+	case 1:
+		return w + " "
+	case 2:
+		return " " + w + "  "
+	case 3:
+		return "\"" + w + "\""
+	case 4:
+		return "`" + w + "`"
+	case 5:
+		return w + "}"
+	case 6:
+		return "\"\""
+	case 7:
+		return w + " }"
+	}
+	return " "
+}
+
+// rawText: the pairs sorted by name and written without any quoting: what a line() that does not quote would print
+func rawText(ps []kv) string {
+	m := toMap(ps)
+	var sb strings.Builder
+	for i, k := range sortedKeys(m) {
+		if i > 0 {
+			sb.WriteByte(',')
+		}
+		sb.WriteString(k + "=" + m[k])
+	}
+	return sb.String()
+}
+
+// genNeighbours: a history that first creates the partition of a set with an edgy value (spelled with quoted
+// literals), then writes the raw text of that set (a spelling of a NEIGHBOURING set, or no tag text at all), then
+// proper spellings of the neighbour and of the first set again; sometimes the neighbour comes first
+func genNeighbours(r *Rng) Replay {
+	k := namePool[r.Intn(len(namePool))]
+	ps := []kv{{k, edgy(r)}}
+	if r.Chance(1, 2) {
+		k2 := namePool[r.Intn(len(namePool))]
+		if k2 != k {
+			ps = append(ps, kv{k2, r.PickStr("eu", "1", "b c", "x,y")})
+		}
+	}
+	raw := rawText(ps)
+	var nb []kv // what the raw text denotes, if anything
+	var m map[string]string
+	err := fmt.Errorf("not parsed")
+	quiet(func() { m, err = rToMap(raw) })
+	if err == nil {
+		for _, kk := range sortedKeys(m) {
+			nb = append(nb, kv{kk, m[kk]})
+		}
+	}
+	var texts [][]byte
+	add := func(t string) { texts = append(texts, []byte(t)) }
+	if len(nb) > 0 && r.Chance(1, 4) {
+		add(spell(r, nb, true))
+	}
+	add(setText(ps))
+	if r.Chance(1, 3) {
+		add(spell(r, ps, true))
+	}
+	add(raw)
+	if len(nb) > 0 {
+		add(rawText(nb))
+		add(spell(r, nb, true))
+	}
+	add(spell(r, ps, true))
+	if r.Chance(1, 2) {
+		add(raw + blanks(r))
+	}
+	srcs := []string{"", "{" + setText(ps) + "}"}
+	if len(nb) > 0 {
+		srcs = append(srcs, "{"+setText(nb)+"}")
+	}
+	sets := [][]kv{ps}
+	if len(nb) > 0 {
+		sets = append(sets, nb)
+	}
+	srcs = append(srcs, genSource(r, sets))
+	return Replay{Kind: "hist", Texts: texts, Sources: srcs, Restart: r.Chance(2, 3)}
 }
 
 func blanks(r *Rng) string {
@@ -435,7 +533,16 @@ func refSource(src *lql.Source, m map[string]string, re *refErr) bool {
 	case src == nil:
 		return true
 	case src.Tags != nil:
-		return kvstring.MapSubset(tag.VC08TagMap(src.Tags.Tags), m)
+		// the reference meaning of {tags}: every given pair is a pair of the partition's set (the name must be there:
+		// a missing tag is not a tag with the empty value). Written out here, not kvstring.MapSubset: the oracle must
+		// not share the code under test
+		for k, v := range tag.VC08TagMap(src.Tags.Tags) {
+			pv, ok := m[k]
+			if !ok || pv != v {
+				return false
+			}
+		}
+		return true
 	}
 	return refExpr(src.Expr, m, re)
 }
@@ -538,6 +645,22 @@ func genSource(r *Rng, sets [][]kv) string {
 		}
 		if len(sub) == 0 {
 			sub = ps[:1]
+		}
+		if r.Chance(1, 3) {
+			// a pair with the empty value, for a name some partitions do not have at all (a missing tag is not the
+			// empty tag) or have with another value
+			k := namePool[r.Intn(len(namePool))]
+			if r.Chance(1, 2) {
+				sub = []kv{{k, ""}}
+			} else {
+				dup := false
+				for _, p := range sub {
+					dup = dup || p.k == k
+				}
+				if !dup {
+					sub = append(sub, kv{k, ""})
+				}
+			}
 		}
 		return "{" + spell(r, sub, true) + "}"
 	case x < 4:
@@ -757,6 +880,7 @@ func mkHist(rp Replay) (*Case, error) {
 	}
 	cs := &Case{Stream: "hist", Replay: rp}
 	cs.Oracle = identityOracle(texts, calls)
+	visitPanicked := false
 	var visits []string
 	for _, q := range rp.Sources {
 		src, err := rParseSource(q)
@@ -776,16 +900,104 @@ func mkHist(rp Replay) (*Case, error) {
 			cs.Oracle = selectionOracle(q, src, vo, partMaps)
 		}
 		if vo.kind == "panic" {
+			visitPanicked = true
 			break // the nil closure panicked under ims.lock, which stays locked: the service is unusable from here on
 		}
 	}
 	cs.Coq = GApp("KHist", t.render(), GList(gtexts), GList(obs), GList(visits))
+	if rp.Restart && !visitPanicked {
+		cs.Tags = append(cs.Tags, restartOracle(cs, dir, texts, calls, ids, partMaps))
+	}
 	if nfault > 0 {
 		cs.Tags = append(cs.Tags, "hist:with-failed-save")
 	}
 	cs.NonTrivial = len(ids) >= 2 && nonCanon
 	cs.Tags = append(cs.Tags, fmt.Sprintf("partitions:%d", len(ids)))
 	return cs, nil
+}
+
+// noJournals is a journal controller without journals: tindex.Init only asks it to visit them
+type noJournals struct {
+	journal.Controller
+}
+
+func (noJournals) Visit(ctx context.Context, cv journal.ControllerVisitorF) {}
+
+// restartOracle: a new service reads the index file the history left behind (tindex.Init = loadState, which parses
+// every stored line again). Every partition must still have the tag set it was created for, and every text that was
+// answered with the partition of exactly the set it denotes must be answered with that partition again. Only for
+// histories whose sets all have a line that denotes them by the quoting rule of the code (classifyTags): the line of a
+// set with an unbalanced inner double quote does not parse back (C08 finding, pinned by TestTagLine) and loadState
+// stops on it. Returns a tag for the input distribution; a violation goes to cs.Oracle (unless one is there already).
+func restartOracle(cs *Case, dir string, texts []string, calls []callRes, ids map[string]int, partMaps map[int]map[string]string) string {
+	if len(ids) == 0 {
+		return "restart:nothing-stored"
+	}
+	for _, m := range partMaps {
+		if classifyTags(m) != "" {
+			return "restart:skipped-unsafe-line"
+		}
+	}
+	// the index file is JSON with the lines as object keys: encoding/json replaces every byte that is not valid UTF-8 by
+	// U+FFFD, so a line with such a byte in a name or a raw-printed value does not survive (recorded finding)
+	badUtf8 := false
+	for _, m := range partMaps {
+		if !utf8.ValidString(lineOf(m)) {
+			badUtf8 = true
+		}
+	}
+	set := func(v *Violation) {
+		if badUtf8 {
+			v.Class = "identity-restart-invalid-utf8-line"
+		}
+		if cs.Oracle == nil {
+			cs.Oracle = v
+		}
+	}
+	svc := tindex.NewInmemServiceWithConfig(tindex.InMemConfig{WorkingDir: dir})
+	reflect.ValueOf(svc).Elem().FieldByName("Journals").Set(reflect.ValueOf(noJournals{}))
+	var ierr error
+	func() {
+		defer guard("tindex.Init", dir)
+		ierr = svc.(interface{ Init(context.Context) error }).Init(context.Background())
+	}()
+	if ierr != nil {
+		set(&Violation{Class: "identity-restart-failed", Detail: fmt.Sprintf("after the history %s the index file cannot be loaded: %v", showTexts(texts), ierr)})
+		return "restart:failed"
+	}
+	for src, id := range ids {
+		ts, err := svc.GetJournalTags(src, false)
+		if err != nil || mapKey(tag.VC08TagMap(ts)) != mapKey(partMaps[id]) {
+			got := "nothing"
+			if err == nil {
+				got = show(mapKey(tag.VC08TagMap(ts)))
+			}
+			set(&Violation{Class: "identity-tags-changed-by-restart", Detail: fmt.Sprintf("history %s: partition %d was created for %s, after a restart its tags are %s", showTexts(texts), id, show(mapKey(partMaps[id])), got)})
+			return "restart:done"
+		}
+	}
+	for i, c := range calls {
+		if c.err || c.denoted == nil || mapKey(c.retMap) != mapKey(c.denoted) {
+			continue
+		}
+		src, set2, err := rGoc(svc, texts[i])
+		if err == nil {
+			svc.Release(src)
+		}
+		if err != nil || src != c.src || mapKey(tag.VC08TagMap(set2)) != mapKey(c.denoted) {
+			set(&Violation{Class: "identity-partition-changed-by-restart", Detail: fmt.Sprintf("history %s: text %s was answered with partition %d (%s); after a restart: err=%v, same partition=%v", showTexts(texts), show(texts[i]), ids[c.src], show(mapKey(c.retMap)), err, src == c.src)})
+			return "restart:done"
+		}
+	}
+	return "restart:done"
+}
+
+func showTexts(texts []string) string {
+	var q []string
+	for _, t := range texts {
+		q = append(q, show(t))
+	}
+	return "[" + strings.Join(q, " ") + "]"
 }
 
 func selectionOracle(q string, src *lql.Source, vo visitObs, partMaps map[int]map[string]string) *Violation {
@@ -1152,6 +1364,17 @@ func corpus() []Replay {
 		{Kind: "hist", Texts: bs(`a="\"x\""`, `a="x"`, `a=x`), Sources: []string{"", "{a=x}", "a=x"}},
 		{Kind: "hist", Texts: bs(`a=""`, `a="\"\""`), Sources: []string{""}},
 		{Kind: "hist", Texts: bs(`a=" x"`, `a=x`, `a="x}"`, `{a=x}}`, `a="x "`), Sources: []string{"", "{a=x}"}},
+		// a partition for a value the quoting rule of line() is about exists BEFORE the raw text (a spelling of the
+		// neighbouring set) is written: the raw-text fast path must not hit it; then the index is read back from its file
+		{Kind: "hist", Texts: bs(`name="app "`, `name=app `, `name=app`, `{ name = "app" }`, `name="app "`, "name=`app `"),
+			Sources: []string{`{name=app}`, `{name="app "}`, `name like "app*"`, ""}, Restart: true},
+		{Kind: "hist", Texts: bs(`name="app ",zone=eu`, `name=app ,zone=eu`, `zone=eu,name=app`, `zone=eu,name="app "`),
+			Sources: []string{`{name=app}`, `{name="app "}`, `{zone=eu}`}, Restart: true},
+		{Kind: "hist", Texts: bs(`a=" x"`, `a= x`, `a=x`, `a="x  "`, `a=x  `, `a=" "`, `a= `, `a=""`), Sources: []string{"", `{a=x}`, `{a=" x"}`, `{a=""}`}, Restart: true},
+		{Kind: "hist", Texts: bs("a=\"`x`\"", "a=`x`", `a=x`, `a="\"x\""`, `a="x"`), Sources: []string{"", `{a=x}`}, Restart: true},
+		{Kind: "hist", Texts: bs(`b=1,a="x}"`, `a=x},b=1`, `b=1,a=x`, `z="x}"`, `z=x}`, `{z=x}`, `z=x`), Sources: []string{"", `{a=x}`, `{z=x}`}, Restart: true},
+		// FROM {k=""}: a missing tag is not a tag with the empty value
+		{Kind: "hist", Texts: bs(`name=app1`, `name=app2,zone=""`, `name=app3,zone=z`), Sources: []string{`{zone=""}`, `{rack=""}`, `{name=app2,zone=""}`, `{zone=z}`}, Restart: true},
 		{Kind: "hist", Texts: bs(`name=app1,ip=1`, `{ ip = "1" , name=app1 }`, `ip=1,name=app1`, `ip=2,name=app1`, `name=app1`),
 			Sources: []string{"{name=app1}", "{name=app1,ip=2}", "name=app1 AND NOT ip=1", "ip like \"[\"", "name=app1 and ip like \"[\"", "upper(name) = APP1", ""}},
 		{Kind: "eval", Sources: []string{`name = a AND ip like "["`}, Sets: bs(`name=a,ip=1`, `name=b`)},
@@ -1233,7 +1456,10 @@ func main() {
 					faults[k] = r.Chance(1, 5)
 				}
 			}
-			jobs = append(jobs, Replay{Kind: "hist", Texts: texts, Faults: faults, Sources: srcs})
+			jobs = append(jobs, Replay{Kind: "hist", Texts: texts, Faults: faults, Sources: srcs, Restart: r.Chance(1, 3)})
+		}
+		for i := 0; i < c.N(40); i++ {
+			jobs = append(jobs, genNeighbours(r))
 		}
 		for i := 0; i < c.N(350); i++ {
 			var sets [][]kv
